@@ -4,7 +4,7 @@ V=$(cd "$(dirname "$0")/.." && pwd)
 R=${VERIF_REPO:-/repo}
 cd "$V"
 for d in seeded/*/; do
-  id=$(basename $d); p=$(python3 -c "import json;print(json.load(open('$d/meta.json'))['property'])")
+  id=$(basename $d); p=$(python3 -c "import json;m=json.load(open('$d/meta.json'));print(m.get('check', m['property']))")
   echo "== $id ($p)"
   tools/run_seeded.sh "$V/$d" $p 2>&1 | grep -v KNOWN | tail -3 | cut -c1-200
 done
